@@ -79,6 +79,40 @@ def compat_cases(ctx):
         ctx.violation({"check": "compat-form", "form": "bare-name-latest-definition"}, {})
 
 
+    # sequences (reference-encoded): a type redefined in mid-stream under bare-name identifiers; two descriptors that share
+    # name + hash written alternately; a type redefined back and forth.  Each record must come back with the fields of
+    # the LATEST definition in front of it.
+    X, Xc = [("string", "a"), ("string", "b")], [("string", "astringb")]
+    assert rc.descriptor_hash("t/x", X) == rc.descriptor_hash("t/x", Xc)
+    meta = [None, None, gen7, 1]
+    seqs = {
+        "bare-name-redefined-midstream": [("D", name, fields), ("R", name, fields, ["v", 5], "name"), ("R", name, fields, ["w", 6], "name"), ("D", name, f2), ("R", name, f2, [7], "name"),
+                                          ("R", name, f2, [8], "name"), ("D", name, fields), ("R", name, fields, ["x", 9], "name")],
+        "colliding-identifiers-alternating": [("D", "t/x", X), ("R", "t/x", X, ["1", "2"], None), ("D", "t/x", Xc), ("R", "t/x", Xc, ["3"], None), ("R", "t/x", Xc, ["4"], None),
+                                              ("D", "t/x", X), ("R", "t/x", X, ["5", "6"], None)],
+        "versioned-redefined-back-and-forth": [("D", name, fields), ("R", name, fields, ["v", 5], None), ("D", name, f2), ("R", name, f2, [7], None), ("R", name, fields, ["w", 6], None),
+                                               ("R", name, f2, [8], None)],
+    }
+    for form, seq in seqs.items():
+        ctx.case(("compat-seq", form))
+        data, want = H, []
+        for it in seq:
+            if it[0] == "D":
+                data += rc.descriptor_frame(it[1], it[2])
+            else:
+                _, nm, fl, vals, ident = it
+                data += rc.record_frame(nm, fl, vals + meta, **({"identifier": ident} if ident else {}))
+                want.append(([n for _, n in fl], [str(v) for v in vals]))
+        try:
+            recs = list(RecordStreamReader(io.BytesIO(data)))
+            got = [([n for _, n in r._desc.get_field_tuples()], [str(getattr(r, n)) for _, n in r._desc.get_field_tuples()]) for r in recs]
+            ok, exc = got == want, "none"
+        except Exception as e:
+            ok, exc, got = False, type(e).__name__ + ":" + str(e)[:80], None
+        if not ok:
+            ctx.violation({"check": "compat-form", "form": form}, {"exc": exc, "got": got, "want": want})
+
+
 def golden(ctx):
     from flow.record import RecordReader
 
